@@ -604,8 +604,13 @@ def check_constructor_config(rep, repo):
     given = [pf, bpf, ("cmp", "is not", pf, ("const", None)), mk_not(("cmp", "is", pf, ("const", None)))]
     absent = [mk_not(pf), mk_not(bpf), ("cmp", "is", pf, ("const", None)), ("not", pf)]
 
+    from ..rules_premise import validation_guard
+    _raises = [e for e in w.events if e.kind == "raise"]
+
     def under(e, alts):
-        fs = facts(e.guards)
+        # (the complement of an argument check that raises - `if not isinstance(file, str): raise` - is not a condition)
+        fs = facts(tuple((g, pol) for g, pol in e.guards
+                         if not validation_guard(_raises, g, pol) or any(f in alts for f in facts(((g, pol),)))))
         return len(fs) == 1 and fs[0] in alts
 
     st = [e for e in w.events if e.kind == "store" and e.target == flag]
